@@ -5,7 +5,7 @@ from ..common import BASE_ASSUMPTIONS_L1
 
 WHICH = {"wb_decoder_add": ("verify_wb_decoder_add", "amaranth_soc.wishbone.bus.Decoder.add", "wishbone.bus.Decoder.add::refuses-only-the-excluded-combinations"),
          "arbiter_add": ("verify_wb_arbiter_add", "amaranth_soc.wishbone.bus.Arbiter.add", "wishbone.bus.Arbiter.add::refuses-only-the-excluded-combinations"),
-         "csr_decoder_add": ("verify_csr_decoder_add", "amaranth_soc.csr.bus.Decoder.add", "csr.bus.Decoder.add::refuses-only-a-different-data-width")}
+         "csr_decoder_add": ("verify_csr_decoder_add", "amaranth_soc.csr.bus.Decoder.add", "csr.bus.Decoder.add::accepts-only-the-same-data-width")}
 
 
 def add_to(run, names):
